@@ -581,7 +581,11 @@ func (tdsChan *Channel) WritePacket(packet *Packet) {
 
 	// The packet is header-only - pass it directly into the package
 	// channel.
-	if packet.Header.Length == PacketHeaderSize {
+	// Header-only packets of a response carry no protocol information
+	// besides their status (e.g. when the end of message is signalled
+	// after a response whose length is a multiple of the packet size)
+	// and are handled like any other response packet.
+	if packet.Header.Length == PacketHeaderSize && packet.Header.MsgType != TDS_BUF_RESPONSE {
 		tdsChan.packageCh <- HeaderOnlyPackage{Header: packet.Header}
 		return
 	}
